@@ -96,6 +96,12 @@ async fn run_script(script: Script, paused: bool) -> Vec<Ev> {
 	rec.rec(reset);
 
 	let factory = SimFactory::new(rec.clone(), script.kids.clone());
+	// the simulated child is installed by the spawn interceptor (after the job's own hook, if any), so
+	// that spawn hooks can be replaced and unset like any other control
+	{
+		let factory = factory.clone();
+		watchexec_supervisor::verif::set_spawn_interceptor(Some(Arc::new(move |cmd| factory.on_intercept(cmd))));
+	}
 	let (job, task) = start_job(Arc::new(Command {
 		program: Program::Exec {
 			prog: "/bin/true".into(),
@@ -195,7 +201,25 @@ async fn run_script(script: Script, paused: bool) -> Vec<Ev> {
 			("set_hook", Some(j)) => {
 				let factory = factory.clone();
 				let tag = step.tag.unwrap_or(0);
-				Some(j.set_spawn_hook(move |cmd, ctx| factory.on_hook(tag, cmd, ctx)))
+				Some(j.set_spawn_hook(move |cmd, ctx| factory.hook_only(tag, cmd, ctx)))
+			}
+			("set_async_hook", Some(j)) => {
+				let factory = factory.clone();
+				let tag = step.tag.unwrap_or(0);
+				Some(j.set_spawn_async_hook(move |cmd, ctx| {
+					factory.hook_only(tag, cmd, ctx);
+					Box::new(async {})
+				}))
+			}
+			("unset_hook", Some(j)) => Some(j.unset_spawn_hook()),
+			("set_async_error_handler", Some(j)) => {
+				let rec = rec.clone();
+				let tag = step.tag.unwrap_or(0);
+				Some(j.set_async_error_handler(move |err| {
+					let msg = err.get().map_or(String::new(), ToString::to_string);
+					rec.rec(Ev::new("err").a(msg).x(tag));
+					Box::new(async {})
+				}))
 			}
 			("set_error_handler", Some(j)) => {
 				let rec = rec.clone();
@@ -214,6 +238,9 @@ async fn run_script(script: Script, paused: bool) -> Vec<Ev> {
 			.a(step.op.clone())
 			.b(step.sig.clone().unwrap_or_default())
 			.x(i64::try_from(step.grace.unwrap_or(0)).unwrap());
+		if step.op == "run_async" {
+			ev = ev.x(i64::try_from(step.delay.unwrap_or(0)).unwrap());
+		}
 		if let Some(tag) = step.tag {
 			ev = ev.x(tag);
 		}
@@ -260,6 +287,7 @@ async fn run_script(script: Script, paused: bool) -> Vec<Ev> {
 	rec.stop();
 	if paused {
 		watchexec_supervisor::verif::set_thread_sink(None);
+		watchexec_supervisor::verif::set_spawn_interceptor(None);
 	} else {
 		watchexec_supervisor::verif::set_global_sink(None);
 	}
